@@ -95,7 +95,7 @@ def sequential_outcomes(cfgs, threads, split):
     for t in threads:
         ts = []
         for op in t:
-            if split and op[0] == "transfer" and op[1] != op[2]:
+            if split and op[0] == "transfer":
                 ts.append(("xfer_debit",) + op[1:])
                 ts.append(("xfer_credit",) + op[1:])
             else:
